@@ -40,7 +40,7 @@ ASSUMPTIONS = [
     "single trajectory per run (an autosave file belongs to one trajectory)",
 ]
 
-PROFILE = {"n_atoms": (2, 5), "n_pulses": (1, 3), "dur": (16, 100), "max_steps": 12, "p_modulation": 0.15, "solver_w": [0.45, 0.35, 0.2], "p_spam": 0.2}
+PROFILE = {"n_atoms": (2, 5), "n_pulses": (1, 3), "dur": (16, 100), "max_steps": 12, "p_modulation": 0.15, "solver_w": [0.45, 0.35, 0.2], "p_spam": 0.2, "p_xy": 0.08}
 
 
 def plan(tier: str) -> dict:
